@@ -332,7 +332,7 @@ func (c *Check) NoEarlyExit(fn *ssa.Function, lp *Loop, allow func(from, to *ssa
 			}
 			// compound loop conditions (`for ...; a && b; ...`): the later operands are evaluated in
 			// cond.* blocks that leave to the header's own exit
-			if strings.HasPrefix(b.Comment, "cond.") && len(lp.Header.Succs) == 2 && s == lp.Header.Succs[1] {
+			if len(lp.Header.Succs) == 2 && s == lp.Header.Succs[1] && isLoopCondBlock(lp, b, 0) {
 				continue
 			}
 			// rotated `for i := range n` loops leave from the latch on `iter+1 < n` false
@@ -518,4 +518,22 @@ func (c *Check) HashSealedAfterWrites(fn *ssa.Function, what string) bool {
 	}
 	c.Sites += len(writes) + len(sums)
 	return c.Require(len(writes) > 0 && len(sums) > 0 && bad == "", "order", shortName(fn)+"|digest taken after every ingredient", "every hash.Write precedes the hash.Sum that produces the digest ("+what+")", fmt.Sprintf("writes=%d sums=%d; a Write at %q is not ordered before the Sum", len(writes), len(sums), bad), c.W.Pos(fn.Pos()))
+}
+
+// isLoopCondBlock: b evaluates a later operand of the loop's own compound condition: a cond.* block
+// all of whose predecessors are the header or such blocks (a `break` fused into a cond.* block of a
+// body `if a && b` has a body block among its predecessors and does not qualify).
+func isLoopCondBlock(lp *Loop, b *ssa.BasicBlock, depth int) bool {
+	if depth > 6 || !strings.HasPrefix(b.Comment, "cond.") {
+		return false
+	}
+	for _, p := range b.Preds {
+		if p == lp.Header {
+			continue
+		}
+		if !isLoopCondBlock(lp, p, depth+1) {
+			return false
+		}
+	}
+	return len(b.Preds) > 0
 }
